@@ -79,6 +79,11 @@ def run(repo: Repo, L: Ledger, tier: str):
     bad = None
     for r in finals:
         gl = r.heap[("self", "rows")]
+        if not hasattr(gl, "log"):
+            raise AnalysisError("trim_large_overhangs: self.rows is rebound to a value outside the list model: no verdict")
+        unk = [op for op, *_ in gl.log if op.endswith("?")]
+        if unk:
+            raise AnalysisError(f"trim_large_overhangs: rows are changed by an operation outside the list model ({unk}): no verdict")
         if gl.log or as_lin(r.heap[("self", "start")]) != S or as_lin(r.heap[("self", "end")]) != E:
             bad = r
     L.check(
